@@ -11,6 +11,8 @@ def call(eng, node, st):
     # ------------------------------------------------------------- logging & friends: pure, skipped
     if isinstance(f, ast.Attribute) and isinstance(f.value, ast.Name) and f.value.id in ("logger", "logging", "warnings"):
         return NONE
+    if isinstance(f, ast.Name) and isinstance(st.env.get(f.id), VModel) and hasattr(st.env[f.id], "sym_call"):
+        return st.env[f.id].sym_call(eng, st, [eng.eval(a, st) for a in node.args], {k.arg: eng.eval(k.value, st) for k in node.keywords})
     if isinstance(f, ast.Name):
         name = f.id
         if eng.spec_mode:
